@@ -33,6 +33,9 @@ def _setup(ctx, arrays):
     m1 = I.call(fm, [{A["element"]: q[0], A["element2"]: q[1]}], {})
     m2 = I.call(fm, [{A["ion_isotope"]: q[2], A["H1"]: q[3]}], {})
     m3 = I.call(fm, [{A["element2"]: q[4]}], {})
+    # two different materials that carry the same display name (names must not identify materials)
+    I.setattr(m2, "name", "sample")
+    I.setattr(m3, "name", "sample")
     return w, lam, [m1, m2, m3, m1]
 
 
@@ -73,8 +76,10 @@ def run(ctx):
         # guard: zero density and zero total weight give zeros
         z = I.call(calc, [Vec(ws)], {"density": sp.Integer(0)})
         ctx.check(tuple(z) == (0, 0, 0), "R1", f"zero density gives zeros [{label}]", f"returned {_s(z)}", csite)
-        z = I.call(calc, [Vec([sp.Integer(0)] * 4)], {"density": rho})
-        ctx.check(tuple(z) == (0, 0, 0), "R1", f"zero total weight gives zeros [{label}]", f"returned {_s(z)}", csite)
+        rz = raises(lambda: I.call(calc, [Vec([sp.Integer(0)] * 4)], {"density": rho}))
+        z = I.call(calc, [Vec([sp.Integer(0)] * 4)], {"density": rho}) if rz is None else None
+        ctx.check(rz is None and tuple(z) == (0, 0, 0), "R1", f"zero total weight gives zeros [{label}]",
+                  f"raised {rz} (0/0 in the weight sums)" if rz else f"returned {_s(z)}", csite)
         # default density of the calculator is 1
         g1 = I.call(calc, [Vec(ws)], {})
         eq(ctx, "R1", f"default density is 1 [{label}]", g1[0], sp.sympify(got[0]).subs(rho, 1), csite, nonzero=[M])
